@@ -120,6 +120,53 @@ func VH_C13_reader_primitives_total() {
 			vrtAssert(r.Read(&x) != nil, "unsupported-target-is-error")
 			vrtReach("ran")
 		})
+	case 4: // targets that already hold previously decoded values (with spare capacity)
+		which := vrtChoose(4)
+		vhNoPanic("decode-no-panic", func() {
+			r := NewReader(data)
+			switch which {
+			case 0:
+				back := make([]vhTiny, 2, 4)
+				back[0], back[1] = vhTiny{K: 1, T: "x"}, vhTiny{K: 2, T: "y"}
+				dst := back
+				err := r.ReadInto(&dst)
+				if err != nil {
+					vrtReach("decode-error")
+					vrtAssert(len(dst) == 2 && dst[0] == (vhTiny{K: 1, T: "x"}) && dst[1] == (vhTiny{K: 2, T: "y"}), "caller-untouched-on-error")
+					vrtAssert(back[0] == (vhTiny{K: 1, T: "x"}) && back[1] == (vhTiny{K: 2, T: "y"}), "caller-untouched-on-error")
+				} else {
+					vrtReach("decoded-ok")
+				}
+			case 1:
+				back := make([]uint16, 3, 8)
+				back[0], back[1], back[2] = 11, 22, 33
+				dst := back
+				err := r.Read(&dst)
+				if err != nil {
+					vrtReach("decode-error")
+					vrtAssert(len(dst) == 3 && dst[0] == 11 && dst[1] == 22 && dst[2] == 33, "caller-untouched-on-error")
+					vrtAssert(back[0] == 11 && back[1] == 22 && back[2] == 33, "caller-untouched-on-error")
+				}
+			case 2:
+				dst := [2]vhTiny{{K: 1, T: "x"}, {K: 2, T: "y"}}
+				err := r.ReadInto(&dst)
+				if err != nil {
+					vrtAssert(dst == [2]vhTiny{{K: 1, T: "x"}, {K: 2, T: "y"}}, "caller-untouched-on-error")
+				}
+			case 3:
+				// two targets in one call: the first decodes, the second fails;
+				// the second keeps its previous value
+				var a uint8 = 9
+				back := make([]string, 1, 4)
+				back[0] = "keep"
+				dst := back
+				err := r.ReadInto(&a, &dst)
+				if err != nil {
+					vrtAssert(len(dst) == 1 && dst[0] == "keep" && back[0] == "keep", "caller-untouched-on-error")
+				}
+			}
+			vrtReach("ran")
+		})
 	}
 }
 
